@@ -528,6 +528,13 @@ class _Norm(ast.NodeTransformer):
                         for t, v in zip(st.targets[0].elts, st.value.elts):
                             split.append(ast.copy_location(ast.Assign(targets=[t], value=v), st))
                         continue
+                # N16b: `a, b = P` with P a plain path is `a = P[0]; b = P[1]` (the unpacking itself insists that P has exactly that many items)
+                if isinstance(st, ast.Assign) and len(st.targets) == 1 and isinstance(st.targets[0], (ast.Tuple, ast.List)) \
+                        and all(isinstance(t, ast.Name) for t in st.targets[0].elts) and len(st.targets[0].elts) >= 2 and _plain_chain(st.value) \
+                        and not isinstance(st.value, ast.Name):
+                    for k_, t in enumerate(st.targets[0].elts):
+                        split.append(ast.copy_location(ast.Assign(targets=[t], value=ast.Subscript(value=copy.deepcopy(st.value), slice=ast.Constant(value=k_), ctx=ast.Load())), st))
+                    continue
                 # N28: `a, *rest = X.split(..)` is `t = X.split(..); a = t[0]; rest = t[1:]` (split returns a list: a slice of it is the same list the
                 # star collects)
                 if isinstance(st, ast.Assign) and len(st.targets) == 1 and isinstance(st.targets[0], (ast.Tuple, ast.List)) and len(st.targets[0].elts) == 2 \
